@@ -18,7 +18,6 @@ import (
 	"time"
 
 	"github.com/hyperledger/aries-framework-go/component/storageutil/mem"
-	"github.com/hyperledger/aries-framework-go/pkg/didcomm/common/service"
 	"github.com/hyperledger/aries-framework-go/pkg/didcomm/protocol/mediator"
 	"github.com/hyperledger/aries-framework-go/pkg/didcomm/protocol/messagepickup"
 	mockdispatcher "github.com/hyperledger/aries-framework-go/pkg/mock/didcomm/dispatcher"
@@ -39,20 +38,26 @@ type FOp struct {
 	FGet  []int  `json:"fget,omitempty"` // indexes of the operation's inbox Gets that fail
 	FPut  []int  `json:"fput,omitempty"`
 	FSend bool   `json:"fsend,omitempty"`
+	V2    bool   `json:"v2,omitempty"` // fwd: DIDComm V2 forward type
 }
 
 // Plant is a document written into the raw store before the history starts.
 type Plant struct {
 	DID  int    `json:"did"`
 	Kind string `json:"kind"`
+	// Times is the profile of the added_time members of the planted messages (an inbox written by an earlier process whose
+	// clock the property does not depend on): "" = all equal, in the past; inc / dec = increasing / decreasing in stored
+	// order; future = increasing but later than anything this process will add; futuredec
+	Times string `json:"times,omitempty"`
 }
 
 // FCase is the replayable description of one document-level history.
 type FCase struct {
-	Init  []Plant `json:"init,omitempty"`
-	Ops   []FOp   `json:"fops"`
-	Codec bool    `json:"codec,omitempty"` // snapshots go to Coq as JSON trees
-	Empty int     `json:"empty,omitempty"` // message number whose payload is empty (0 = none)
+	Init    []Plant `json:"init,omitempty"`
+	Ops     []FOp   `json:"fops"`
+	Codec   bool    `json:"codec,omitempty"`   // snapshots go to Coq as JSON trees
+	Empty   int     `json:"empty,omitempty"`   // message number whose payload is empty (0 = none)
+	KeyForm int     `json:"keyform,omitempty"` // notation of the registered route keys (see routeKeyForm)
 }
 
 // SDoc is the harness's own classification of a stored value (bulk cases); it mirrors the service's decoding
@@ -450,17 +455,32 @@ func coqSDoc(d SDoc) string {
 func (w *fworld) plant(p Plant) {
 	const ts = "2020-01-02T03:04:05Z"
 
+	timeOf := func(i int) string {
+		switch p.Times {
+		case "inc":
+			return fmt.Sprintf("2020-01-02T03:04:%02dZ", 10+i)
+		case "dec":
+			return fmt.Sprintf("2020-01-02T03:04:%02dZ", 50-i)
+		case "future":
+			return fmt.Sprintf("2099-01-02T03:04:%02dZ", 10+i)
+		case "futuredec":
+			return fmt.Sprintf("2099-01-02T03:04:%02dZ", 50-i)
+		}
+
+		return ts
+	}
+
 	valid := func(ms ...int) string {
 		parts := []string{}
-		for _, m := range ms {
-			parts = append(parts, fmt.Sprintf(`{"id":"planted-%d","added_time":%q,"msg":%q}`, m, ts, base64.StdEncoding.EncodeToString(w.payloadOf(m))))
+		for i, m := range ms {
+			parts = append(parts, fmt.Sprintf(`{"id":"planted-%d","added_time":%q,"msg":%q}`, m, timeOf(i), base64.StdEncoding.EncodeToString(w.payloadOf(m))))
 		}
 
 		return "[" + strings.Join(parts, ",") + "]"
 	}
 
 	head := fmt.Sprintf(`"DID":%q,"last_added_time":%q,"last_delivered_time":%q,"last_removed_time":%q`, didName(p.DID), ts, ts, ts)
-	a, b := 900+10*p.DID, 901+10*p.DID
+	a, b, c3 := 900+10*p.DID, 901+10*p.DID, 902+10*p.DID
 
 	var doc string
 
@@ -489,15 +509,15 @@ func (w *fworld) plant(p Plant) {
 	case "badb64":
 		doc = `{` + head + `,"message_count":1,"messages":[{"id":"a","added_time":"` + ts + `","msg":"!!!"}]}`
 	case "countoff":
-		doc = `{` + head + `,"message_count":5,"messages":` + valid(a, b) + `}`
+		doc = `{` + head + `,"message_count":5,"messages":` + valid(a, b, c3) + `}`
 	case "nomsgs":
 		doc = `{` + head + `,"message_count":0}`
 	case "emptylist":
 		doc = `{` + head + `,"message_count":0,"messages":[]}`
 	case "extra":
-		doc = `{` + head + `,"message_count":2,"future_member":{"a":[1,2]},"messages":` + valid(a, b) + `}`
+		doc = `{` + head + `,"message_count":3,"future_member":{"a":[1,2]},"messages":` + valid(a, b, c3) + `}`
 	default: // "valid": an inbox left by an earlier process
-		doc = `{` + head + `,"message_count":2,"total_size":123,"messages":` + valid(a, b) + `}`
+		doc = `{` + head + `,"message_count":3,"total_size":123,"messages":` + valid(a, b, c3) + `}`
 	}
 
 	st, err := w.raw.OpenStore(messagepickup.Namespace)
@@ -509,6 +529,8 @@ func (w *fworld) plant(p Plant) {
 		panic(err)
 	}
 }
+
+var plantTimes = []string{"", "inc", "dec", "future", "futuredec"}
 
 var plantKinds = []string{"garbage", "toparray", "topstring", "null", "wrongtype", "countstring", "badmsgs", "msgsobject", "badelem",
 	"badelemfirst", "badb64", "countoff", "nomsgs", "emptylist", "extra", "valid"}
@@ -551,7 +573,7 @@ func (w *fworld) apply(op FOp) (obs FObs) {
 
 		return FObs{Out: "added"}
 	case "fwd":
-		err := w.med.VerifHandleForward(mustMsg(map[string]interface{}{"@id": fmt.Sprintf("fwd-%d", op.Msg), "@type": service.ForwardMsgType,
+		err := w.med.VerifHandleForward(mustMsg(map[string]interface{}{"@id": fmt.Sprintf("fwd-%d", op.Msg), "@type": forwardType(op.V2),
 			"to": routeKey(op.DID), "msg": base64.StdEncoding.EncodeToString(w.payloadOf(op.Msg))}))
 		if err != nil {
 			return FObs{Out: "err"}
@@ -588,7 +610,9 @@ func (w *fworld) apply(op FOp) (obs FObs) {
 	return w.decodeSent(w.sent[0], !w.failSend)
 }
 
-func (w *fworld) decodeSent(s map[string]interface{}, ok bool) FObs { return decodeSentF(s, ok, w.numOf) }
+func (w *fworld) decodeSent(s map[string]interface{}, ok bool) FObs {
+	return decodeSentF(s, ok, w.numOf)
+}
 
 func decodeSentF(s map[string]interface{}, ok bool, numOf func(string) int) FObs {
 	typ, _ := s["@type"].(string)
@@ -714,6 +738,7 @@ func hasInt(a []int, x int) bool {
 }
 
 func runFull(kind string, c FCase, tr *hx.Trace) {
+	routeKeyForm = c.KeyForm
 	w := newFWorld(c.Empty)
 	internTab = map[string]int{}
 
@@ -863,8 +888,14 @@ func runFull(kind string, c FCase, tr *hx.Trace) {
 	rec.Dist = []string{fmt.Sprintf("flen=%d", len(c.Ops)/5*5), fmt.Sprintf("codec=%v", c.Codec)}
 
 	for _, p := range c.Init {
-		rec.Dist = append(rec.Dist, "plant="+p.Kind)
-		rec.Class += "/" + p.Kind
+		rec.Dist = append(rec.Dist, "plant="+p.Kind, "planttimes="+p.Times)
+		rec.Class += "/" + p.Kind + p.Times
+	}
+
+	for _, op := range c.Ops {
+		if op.Kind == "fwd" {
+			rec.Dist = append(rec.Dist, fmt.Sprintf("fwd:v2=%v,keyform=%d", op.V2, c.KeyForm))
+		}
 	}
 
 	for _, op := range c.Ops {
@@ -950,7 +981,7 @@ func randFOp(r *hx.Rng, nd int, fwd bool) FOp {
 	case x < 40:
 		o = FOp{Kind: "add", DID: d}
 		if fwd && r.Intn(2) == 0 {
-			o.Kind = "fwd"
+			o.Kind, o.V2 = "fwd", r.Intn(2) == 0
 		}
 	case x < 52:
 		o = FOp{Kind: "status", DID: d, Me: me}
@@ -1049,9 +1080,16 @@ func fullGenerators(rng *hx.Rng, tier string, tr *hx.Trace) {
 	}
 
 	for _, k := range plantKinds {
-		for _, sc := range scripts {
-			for _, codec := range []bool{false, true} {
-				runFull("planted", FCase{Init: []Plant{{DID: 1, Kind: k}}, Ops: numberF(sc), Codec: codec}, tr)
+		profiles := []string{""}
+		if k == "valid" || k == "countoff" || k == "extra" {
+			profiles = plantTimes // documents that hold messages: every time-stamp profile
+		}
+
+		for _, tp := range profiles {
+			for _, sc := range scripts {
+				for _, codec := range []bool{false, true} {
+					runFull("planted", FCase{Init: []Plant{{DID: 1, Kind: k, Times: tp}}, Ops: numberF(sc), Codec: codec}, tr)
+				}
 			}
 		}
 	}
@@ -1062,7 +1100,7 @@ func fullGenerators(rng *hx.Rng, tier string, tr *hx.Trace) {
 		c := randFCase(r, 3+r.Intn(18), 1+r.Intn(4), false)
 
 		if r.Intn(5) == 0 {
-			c.Init = []Plant{{DID: 1 + r.Intn(2), Kind: plantKinds[r.Intn(len(plantKinds))]}}
+			c.Init = []Plant{{DID: 1 + r.Intn(2), Kind: plantKinds[r.Intn(len(plantKinds))], Times: plantTimes[r.Intn(len(plantTimes))]}}
 		}
 
 		runFull("full-random", c, tr)
@@ -1071,7 +1109,14 @@ func fullGenerators(rng *hx.Rng, tier string, tr *hx.Trace) {
 	// the forward path of the real mediator (relay fails -> held) mixed with pickups, faults and restarts
 	for i := 0; i < nMed; i++ {
 		r := rng.Fork(uint64(12_000_000 + i))
-		runFull("full-mediator", randFCase(r, 3+r.Intn(12), 1+r.Intn(3), true), tr)
+		mc := randFCase(r, 3+r.Intn(12), 1+r.Intn(3), true)
+		mc.KeyForm = i % 3
+
+		if r.Intn(4) == 0 {
+			mc.Init = []Plant{{DID: 1, Kind: "valid", Times: plantTimes[r.Intn(len(plantTimes))]}}
+		}
+
+		runFull("full-mediator", mc, tr)
 	}
 
 	// codec histories: stored bytes go to Coq as trees
@@ -1081,7 +1126,7 @@ func fullGenerators(rng *hx.Rng, tier string, tr *hx.Trace) {
 		c.Codec = true
 
 		if r.Intn(4) == 0 {
-			c.Init = []Plant{{DID: 1, Kind: plantKinds[r.Intn(len(plantKinds))]}}
+			c.Init = []Plant{{DID: 1, Kind: plantKinds[r.Intn(len(plantKinds))], Times: plantTimes[r.Intn(len(plantTimes))]}}
 		}
 
 		if r.Intn(4) == 0 {
